@@ -301,8 +301,10 @@ class ModelBackend:
         return self.stack[-1][0].spawn(n)
 
 
-def interp(be, prog, trace, spawned, lvl=0):
+def interp(be, prog, trace, spawned, lvl=0, ctxs=None):
     """Run a program (list of statements) on a backend, appending to trace."""
+    if ctxs is None:
+        ctxs = []
     for st in prog:
         k = st[0]
         if k == "draw":
@@ -325,20 +327,37 @@ def interp(be, prog, trace, spawned, lvl=0):
                 with be.context(inp):
                     if be.depth() != d0 + 1:
                         trace.append(("BAD-depth-inside", be.depth()))
-                    interp(be, st[3], trace, spawned, lvl + 1)
+                    interp(be, st[3], trace, spawned, lvl + 1, ctxs)
             finally:
+                trace.append(("exit", be.depth(), be.depth() == d0, be.token() is tok))
+        elif k == "mkctx":
+            ctxs.append(be.context(st[1]))          # a Context object that may be entered several times
+        elif k == "enter_stored":
+            if not ctxs:
+                continue
+            c = ctxs[st[1] % len(ctxs)]
+            if getattr(c, "_verif_active", False):
+                continue          # reusable, but (like most context managers) not re-entrant: nested use is not generated
+            d0, tok = be.depth(), be.token()
+            trace.append(("enter-stored", be.depth()))
+            c._verif_active = True
+            try:
+                with c:
+                    interp(be, st[2], trace, spawned, lvl + 1, ctxs)
+            finally:
+                c._verif_active = False
                 trace.append(("exit", be.depth(), be.depth() == d0, be.token() is tok))
         elif k == "pushpop":
             d0, tok = be.depth(), be.token()
             be.push(st[1])
             try:
-                interp(be, st[2], trace, spawned, lvl + 1)
+                interp(be, st[2], trace, spawned, lvl + 1, ctxs)
             finally:
                 be.pop()
                 trace.append(("popped", be.depth() == d0, be.token() is tok))
         elif k == "try":
             try:
-                interp(be, st[1], trace, spawned, lvl + 1)
+                interp(be, st[1], trace, spawned, lvl + 1, ctxs)
                 trace.append(("try-completed", lvl, be.depth()))
             except ProgramError:
                 trace.append(("caught", lvl, be.depth()))
@@ -380,13 +399,15 @@ def strategies():
     draw = st.tuples(st.just("draw"), st.sampled_from(["normal", "uniform", "pm1", "current_rng"]), st.integers(1, 4))
     spawn = st.tuples(st.just("spawn"), st.integers(1, 3))
     rais = st.tuples(st.just("raise"))
-    leaf = st.one_of(draw, draw, spawn, rais)
+    mkctx = st.tuples(st.just("mkctx"), st.integers(0, 50))
+    leaf = st.one_of(draw, draw, spawn, rais, mkctx)
 
     def ext(children):
         body = st.lists(children, min_size=0, max_size=4)
         return st.one_of(
             st.tuples(st.just("ctx"), st.integers(0, 50), st.sampled_from(["seed", "seed", "spawned"]), body),
             st.tuples(st.just("pushpop"), st.integers(0, 50), body),
+            st.tuples(st.just("enter_stored"), st.integers(0, 5), body),
             st.tuples(st.just("try"), body))
     stmt = st.recursive(leaf, ext, max_leaves=14)
     return st.lists(stmt, min_size=1, max_size=6)
@@ -405,7 +426,7 @@ def nest_depth(p):
     for s in p:
         if s[0] in ("ctx",):
             d = max(d, 1 + nest_depth(s[3]))
-        elif s[0] in ("pushpop",):
+        elif s[0] in ("pushpop", "enter_stored"):
             d = max(d, 1 + nest_depth(s[2]))
         elif s[0] == "try":
             d = max(d, nest_depth(s[1]))
@@ -418,7 +439,7 @@ def has_raise_in_ctx(p, inside=False):
             return True
         if s[0] == "ctx" and has_raise_in_ctx(s[3], True):
             return True
-        if s[0] == "pushpop" and has_raise_in_ctx(s[2], True):
+        if s[0] in ("pushpop", "enter_stored") and has_raise_in_ctx(s[2], True):
             return True
         if s[0] == "try" and has_raise_in_ctx(s[1], inside):
             return True
